@@ -43,6 +43,13 @@ def setup():
 
     I, env, P, G = _I, _env, _P, _G
     H = hren.classes()
+    import time
+
+    import term_image.image.common as CM
+
+    from ..faults import Proxy
+
+    CM.time = Proxy(time, {"sleep": lambda *_: None})  # animations without real waiting
 
 
 # ------------------------------------------------------------------------------ inner renders
@@ -85,7 +92,7 @@ def make_inner(c):
 
 # ------------------------------------------------------------------------------ oracle
 
-def judge(padded: str, bare: str, W, Hh, sides, fill, cols, rows, y0, profile, what, strict_fill=True):
+def judge(padded: str, bare: str, W, Hh, sides, fill, cols, rows, y0, profile, what, strict_fill=True, animated=False):
     """Screen A (padded at (0,y0)) vs screen B (bare at (left, y0+top))."""
     from ..vt import DEFAULT_SGR, Screen, anchor
 
@@ -104,7 +111,7 @@ def judge(padded: str, bare: str, W, Hh, sides, fill, cols, rows, y0, profile, w
     B.reset_touched()
     B.feed(anchor(bare, left), onlcr=True)
     sig = {"what": what}
-    if padded.count("\n") != Hp - 1 or padded.endswith("\n"):
+    if not animated and (padded.count("\n") != Hp - 1 or padded.endswith("\n")):
         raise Violation(f"{what}: padded output has {padded.count(chr(10)) + 1} lines, expected {Hp}", sig)
     badA = [e for e in A.events if e[0] != "stray_st"]
     if badA or not A.in_ground():
@@ -402,6 +409,10 @@ def fmt_cases(draw):
     c["pw"] = draw(st.one_of(st.none(), st.integers(0, 30)))
     c["ph"] = draw(st.one_of(st.none(), st.integers(0, 16)))
     c["api"] = draw(st.sampled_from(["format", "draw", "draw_names"]))
+    if c["inner"]["kind"] == "block" and c["api"] != "format" and draw(st.booleans()):
+        # an animation drawn with the same padding parameters: the final screen is the last frame, padded
+        c["anim"] = draw(gen.anim_image(max_frames=3, max_w=4, max_h=4, fmts=("GIF",)))
+        c["repeat"] = draw(st.sampled_from([1, 2]))
     return c
 
 
@@ -429,7 +440,15 @@ def check_fmt(c, rec):
     bare, profile, image = make_inner(inn)
     sa = {k: v for k, v in inn["style_args"].items() if not (k == "method" and v is None)}
     sa.pop("blend", None)
-    bare = image._renderer(image._render_image, inn["alpha"], **sa)
+    anim = c.get("anim")
+    if anim:
+        image.close()
+        image = I.BlockImage.from_file(gen.anim_file(anim), width=W, height=Hh)
+        image.seek(anim["n"] - 1)
+        bare = image._renderer(image._render_image, inn["alpha"])
+        image.seek(0)
+    else:
+        bare = image._renderer(image._render_image, inn["alpha"], **sa)
     api = c["api"]
     what = f"{api} h={c['h_align']!r} w={c['pw']} v={c['v_align']!r} h={c['ph']} on {inn['kind']} {W}x{Hh} term {cols}x{rows}"
     try:
@@ -470,7 +489,7 @@ def check_fmt(c, rec):
             sys.stdout = cap
             try:
                 image.draw(ha, 0 if c["pw"] is None else c["pw"], va, -2 if c["ph"] is None else c["ph"],
-                           inn["alpha"], check_size=False, scroll=True, **sa)
+                           inn["alpha"], check_size=False, scroll=True, repeat=c.get("repeat", 1), **sa)
             finally:
                 sys.stdout = real
             out = cap.getvalue()
@@ -481,9 +500,11 @@ def check_fmt(c, rec):
         raise
     except Exception as e:
         raise Violation(f"{what}: raised {type(e).__name__}: {e}", {"clause": "exception", "api": api})
-    if not any(sides) and out != bare:
+    if not any(sides) and out != bare and not anim:
         raise Violation(f"{what}: padding without effect altered the render", {"clause": "noeffect"})
-    judge(out, bare, W, Hh, sides, " ", cols, rows, 0, profile, what)
+    judge(out, bare, W, Hh, sides, " ", cols, rows, 0, profile, what, animated=bool(anim))
+    if anim:
+        rec.label("animated_draw")
     note(rec, api, inn["kind"], sides, " ", c["h_align"], c["v_align"], left != right or top != bottom)
     image.close()
 
